@@ -215,6 +215,16 @@ pub fn run_ops_unusual(file: &[u8], ops: &str, prefix: usize, at: u64) -> (Strin
                         }
                     }
                     'r' => { d.reset_animation(); Ok("ok".to_string()) }
+                    // a read_image call that must be rejected (buffer one byte too long): it returns an
+                    // error, leaves the buffer alone and changes nothing - it contributes no output
+                    'w' => {
+                        let mut wrong = vec![0x77u8; n + 1];
+                        match d.read_image(&mut wrong) {
+                            Err(_) if wrong.iter().all(|&b| b == 0x77) => break,
+                            Err(_) => Ok("rejected-read_image-modified-the-buffer".to_string()),
+                            Ok(()) => Ok("wrong-length-read_image-accepted".to_string()),
+                        }
+                    }
                     _ => match d.read_image(&mut buf) {
                         Ok(()) => Ok(format!("image:{}/{}", fnv_bytes(FNV_INIT, &buf), buf.len())),
                         Err(e) => Err(format!("error:{e:?}")),
